@@ -213,7 +213,8 @@ def run(c):
                 fail = f"{c['cls']} accepted but types are {n.input_type} / {n.output_type}, expected {list(S)}"
             elif c["cls"] == "CubaLIF" and (not isinstance(n.w_in, (np.ndarray, np.generic)) or np.shape(n.w_in) != S):
                 fail = f"CubaLIF w_in not materialised to {S}: {getattr(n.w_in, 'shape', None)!r} ({c['w_in']})"
-            elif c["cls"] == "CubaLIF" and c["w_in"] is not None and c["w_in"]["f"] == "negzero" and not np.all(np.signbit(np.asarray(n.w_in))):
+            elif c["cls"] == "CubaLIF" and c["w_in"] is not None and c["w_in"]["f"] == "negzero" and np.asarray(n.w_in).dtype.kind in "fc" \
+                    and not np.all(np.signbit(np.asarray(n.w_in).real)):
                 fail = f"CubaLIF materialised the input weight -0.0 as {np.asarray(n.w_in)!r} (the sign of zero is lost)"
         elif c["kind"] == "linear":
             if tval(n.input_type, "input") == "none" or tval(n.output_type, "output") == "none":
